@@ -1410,7 +1410,7 @@ pub fn check(id: &str, tier: &str) -> i32 {
                 "reference_model": "Fun environment/continuation machine over the checked AST"
             }
         },
-        "assumptions": ["the generator stays in the fragment where the source semantics is unambiguous (pure terminating arguments and codata bodies)", "the reference machine runs on the AST produced by the repository's parser and checker", "x86-64 emulator fidelity", "exploration: a clean batch is evidence, not proof"],
+        "assumptions": ["the generator stays in the fragment where the source semantics is unambiguous (terminating programs; arguments left to right, destructor arguments before the scrutinee, codata by name)", "two reference machines: one on the AST produced by the repository's parser and checker, one on the generator's own tree (generated programs only); they must agree", "x86-64 emulator fidelity", "exploration: a clean batch is evidence, not proof"],
         "wall_s": wall, "violations": violations
     });
     let _ = std::fs::create_dir_all(format!("{}/evidence", verif_dir()));
